@@ -163,6 +163,8 @@ type Run struct {
 	regions           map[int][]region
 	lateOps           []*OpRec
 	defaultsScribbled bool
+	file     *fileState
+	reads    []simrt.ReadRecord
 
 	viol      []Violation
 	probes    map[string]int
@@ -411,6 +413,8 @@ func (r *Run) spawn(c *ClientSpec) {
 			r.blankClient(c)
 		case "mutator":
 			r.mutator(c)
+		case "writer":
+			r.writer(c)
 		default:
 			panic("harness: unknown client kind " + c.Kind)
 		}
@@ -731,6 +735,8 @@ func (r *Run) buildSources() []dials.Source {
 		case "blank":
 			st.blank = &sourcewrap.Blank{}
 			st.src = st.blank
+		case "file":
+			r.setupFile(st)
 		default:
 			panic("harness: unknown source kind " + st.spec.Kind)
 		}
